@@ -67,10 +67,11 @@ def run(ctx):
     nsamp = 60 if ctx.tier == 'quick' else 8000
     for cid, rng in ctx.cases([('s', i) for i in range(nsamp)]):
         mon.cid = cid
+        empty = rng.random() < 0.06          # a file / sample without events still has channels, settings and limits
         if rng.random() < 0.8:
-            spec = zoo.int_spec(rng, n=int(rng.integers(8, 60)), d=int(rng.integers(2, 7)))
+            spec = zoo.int_spec(rng, n=0 if empty else int(rng.integers(8, 60)), d=int(rng.integers(2, 7)))
         else:
-            spec = zoo.float_spec(rng, n=int(rng.integers(8, 40)))
+            spec = zoo.float_spec(rng, n=0 if empty else int(rng.integers(8, 40)))
             spec['pne'] = [str(rng.choice(['0,0', '4,1', '3,0'])) for _ in spec['widths']]
         s = zoo.write_and_load(F, spec, path)
         D = s.shape[1]
